@@ -123,6 +123,24 @@ func TestBoundaryTables(t *testing.T) {
 	for _, s := range []string{"0.0.0.0", "255.255.255.255", "127.0.0.1/8", "127.0.0.1/0", "127.0.0.1/32", "127.0.0.1/33", "::", "::1", "::/0", "::1/128", "::1/129", "1::", "1::/16", "1:2:3:4:5:6:7:8", "1:2:3:4:5:6:7::", "::2:3:4:5:6:7:8", "1::8", "1:2:3:4::5:6:7:8", "1:2:3::4:5:6:7:8", "1:2:3:4:5:6:7:8:9", "1:2:3:4:5:6:7", "FF00::1", "fF00::A", "abcd:ef01:2345:6789:abcd:ef01:2345:6789", "::ffff:102:304", "::ffff:1.2.3.4", "::1.2.3.4", "1.2.3.4::", "fe80::1%eth0", "fe80::1%", "1.2.3.4%1", "12345::1", "g::1", ":::1", "1:::2", "1::2::3", ":1", "1:", ":", "", "1.2.3", "1.2.3.4.5", "256.1.1.1", "1.2.3.4/", "/24", "1.2.3.4/-1", "1.2.3.4/+1", "1.2.3.4/1/2", "1.2.3.4/ 8", " 1.2.3.4", "1.2.3.4 ", "1.2.3.a", "1.2..4", "0x1.2.3.4", "1.2.3.4/8.0", "::/", "::/x", "١.2.3.4", "1.2.3.4/٨", "::%", "[::1]", "::1/64/64", "0:0:0:0:0:0:0:0", "0000:0000:0000:0000:0000:0000:0000:0000", "00000::", "::00000"} {
 		txt("ip", s)
 	}
+	// canonical inputs of earlier findings stay as ordinary cases (they are skipped only while the finding is listed as open)
+	for _, c := range []*Case{
+		{Kind: "newdec", I: 184468, E: 14}, {Kind: "newdec", I: -184468, E: 14}, {Kind: "newdec", I: 1844674407370955162, E: 1}, {Kind: "newdec", I: 922337203685478, E: 0},
+		{Kind: "float", FBits: math.Float64bits(922337203685477.5808)}, {Kind: "float", FBits: math.Float64bits(-922337203685477.5808)}, {Kind: "float", FBits: math.Float64bits(math.NaN())},
+		{Kind: "float", FBits: math.Float64bits(math.Inf(1))}, {Kind: "float", FBits: math.Float64bits(math.Inf(-1))}, {Kind: "float", FBits: uint64(math.Float32bits(float32(math.NaN()))), F32: true},
+		{Kind: "float", FBits: uint64(math.Float32bits(float32(922337203685477.5808))), F32: true}, {Kind: "float", FBits: math.Float64bits(922337203685477.5)}, {Kind: "float", FBits: math.Float64bits(12.34565)},
+	} {
+		n++
+		run(c, "ctor-table", true, nil, fail)
+	}
+	for _, k := range gen.KeysHostile {
+		v := ir.Rec(ir.F(k, ir.Long(1)))
+		n++
+		run(&Case{Kind: "value", V: &v}, "value-table", true, nil, fail)
+		w := ir.Set(ir.Str(k), ir.Ent("T0", k))
+		n++
+		run(&Case{Kind: "value", V: &w}, "value-table", true, nil, fail)
+	}
 	// own spellings of string / uid literals: every escape form
 	lit := func(ty, s string) {
 		n++
@@ -330,6 +348,8 @@ func TestKnown(t *testing.T) {
 		{"record-key-quote", &Case{Kind: "value", V: &keyRec}, "Record{\"\\a\": 1}"},
 		{"newdecimal-wrap", &Case{Kind: "newdec", I: 184468, E: 14}, "NewDecimal(184468, 14)"},
 		{"fromfloat-edge", &Case{Kind: "float", FBits: math.Float64bits(922337203685477.5808)}, "NewDecimalFromFloat(922337203685477.5808)"},
+		{"duration-go-range", &Case{Kind: "gotime", I: 253402300799999}, "Duration(253402300799999 ms).Duration()"},
+		{"uid-unmarshal-lenient", &Case{Kind: "lit", T: "uid", Text: `"`}, "EntityUID.UnmarshalCedar"},
 	} {
 		if !ev.KnownOpen("C12", k.key) {
 			continue
